@@ -7,7 +7,7 @@ def classify(case):
     write, in a UC20 history whose observed trace then reaches the initramfs dead end. Any other failing history is
     reported as a violation."""
     i = case.get("input") or {}
-    if i.get("cfg") != "uc20":
+    if i.get("cfg") not in ("uc20", "ns20"):
         return None
     obs = case.get("observed") or []
     if "ODead" not in obs:
@@ -20,12 +20,12 @@ def classify(case):
     coq = case.get("coq") or ""
     # effective actions are printed in the Coq term, in order
     import re
-    m = re.search(r"\(Case20 \S+ \S+ \[(.*?)\] \[", coq, re.S)
+    m = re.search(r"\(Case20 \S+ \S+ \S+ \[(.*?)\] \[", coq, re.S)
     if not m:
         return None
     acts = [a.strip() for a in m.group(1).split(";")]
     boot_idx = len(acts_before) - 1          # the ABoot during which the dead end is observed
-    if boot_idx < 1 or boot_idx >= len(acts) or acts[boot_idx] != "ABoot":
+    if boot_idx < 1 or boot_idx >= len(acts) or not acts[boot_idx].startswith("ABoot"):
         return None
     prev = acts[boot_idx - 1]
     if re.fullmatch(r"AOp \(SetK \d+%N true\) \(Some 1%nat\)", prev):
@@ -57,7 +57,9 @@ SPEC = dict(
                      mismatch="Boot.mismatch", monitor="Boot.monitor_fail")),
     ],
     classify=classify,
-    rule=("UC20/grub: every operation (set next kernel/base with and without try for revisions 1-3/1-2, mark successful) "
+    rule=("UC20 not scriptable (environment variables + initramfs status update, piboot style): the same systematic histories "
+          "for the kernel operations and mark (cut after 0-3 writes) and a third of the random ones, with and without the "
+          "one-shot tryboot flag. UC20/grub: every operation (set next kernel/base with and without try for revisions 1-3/1-2, mark successful) "
           "cut by a power loss after each of its first 4 writes or run to completion, in 11 protocol contexts (fresh, try "
           "pending, trial running, trial committed, base trial, kernel+base trial, failed trial, second trial, firmware-only "
           "boot, ...), each followed by boot/mark/boot tails; plus random histories of 3-14 actions with cuts, firmware-only "
@@ -77,9 +79,16 @@ SPEC = dict(
         "UC16/18 gadget boot script is not in the repository: modelled from the protocol comment above boot.MarkBootSuccessful",
     ],
     assumptions=[
-        "PARTIAL: UC16/18 firmware behaviour is modelled, not verified (gadget boot scripts are outside the repository).",
-        "PARTIAL: the not-scriptable (piboot) configuration is covered only by the status-update function "
-        "updateNotScriptableBootloaderStatus (complete finite domain); its firmware is not modelled.",
+        "UC16/18: the gadget's boot script is outside the repository; the UC16 theorems are stated for EVERY script that meets "
+        "the contract fw16_ok (read off the protocol comment above boot.MarkBootSuccessful); the correspondence uses one such script",
+        "not scriptable UC20 (piboot style): the Raspberry Pi firmware is outside the repository and is modelled (firmware_ns: "
+        "one-shot tryboot flag starts snap_try_kernel with kernel_status=trying on the command line, otherwise snap_kernel; a "
+        "tryboot that cannot start falls back to a normal boot); piboot.go's translation of the variables into config.txt / "
+        "tryboot.txt is not examined; the in-repo parts (envRef kernel state, updateNotScriptableBootloaderStatus, initramfs "
+        "selection) are modelled and tied",
+        "EXCLUDED event classes: snapd restart without reboot between two writes; I/O error returned in mid-operation; "
+        "UC20 scriptable bootloaders without kernel links (u-boot with gadget boot.scr): same write lists as the not scriptable "
+        "configuration, firmware script not in the repository and not modelled",
         "power loss = reboot: a snapd process restart without reboot between two writes is not an event of the model",
         "a write either happens or the machine loses power: I/O errors returned in the middle of an operation are not modelled",
         "snap files of every revision named in the boot state stay on disk (garbage collection is guarded by boot.InUse, not modelled)",
